@@ -8,6 +8,7 @@ mod prng;
 mod sched;
 mod seam;
 mod storesim;
+mod threadmodel;
 mod world;
 
 use driver::{CheckArgs, ReplayFile, Tier};
@@ -18,6 +19,10 @@ fn arg_val(args: &[String], name: &str) -> Option<String> {
 
 fn main() {
     let args: Vec<String> = std::env::args().collect();
+    if std::env::var("RIPSIM_PANIC_OUTPUT").is_err() {
+        // panics inside simulated actors are observations, not crashes of the harness
+        std::panic::set_hook(Box::new(|_| {}));
+    }
     let cmd = args.get(1).map(|s| s.as_str()).unwrap_or("");
     let code = match cmd {
         "check" => {
